@@ -48,10 +48,6 @@ Section Prims.
   Definition empty_buf (junk : nat -> X) (n : nat) : list X := map junk (seq 0 n).
 End Prims.
 
-(* torch.arange(start, stop, step), start <= ..., RuntimeError for step = 0 *)
-Definition arange_step (start stop step : nat) : option (list nat) :=
-  if step =? 0 then None else Some (range_up start stop step).
-
 (* count.max() : RuntimeError on an empty tensor *)
 Definition max_error (l : list nat) : option nat :=
   match l with [] => None | _ => Some (list_max l) end.
@@ -195,7 +191,8 @@ Section RaggedCat.
   Definition fill_na (is_na : A -> bool) (fill : A) (v : A) : A := if is_na v then fill else v.
 
   Definition mnt_fillna_col (is_na : A -> bool) (t : mnt A) (j : nat) (fill : A) : option (mnt A) :=
-    start_idx <- arange_step j (nr t * nc t) (nc t) ;;
+    (* after fix 0b0fb8c: start_idx = arange(num_rows) * num_cols + col_index *)
+    let start_idx := map (fun r => r * nc t + j) (seq 0 (nr t)) in
     o_s <- tgather (offs t) start_idx ;;
     o_e <- tgather (offs t) (map S start_idx) ;;
     let diff := sub2 o_e o_s in
